@@ -227,6 +227,10 @@ fn boxed_ops(op: &str, a: &[&str]) -> Option<String> {
             let n = arg!(dec(n));
             bopt(InvMod::inv_mod(&arg!(boxed(x, n)), &arg!(boxed(m, n))))
         }
+        // different precisions: documented panic (an `assert_eq!` in every build since /repo fb50dbc)
+        ("c10.b.inv_mod_mixed", [lx, x, lm, m]) => {
+            bopt(arg!(boxed(x, arg!(dec(lx)))).inv_mod(&arg!(boxed(m, arg!(dec(lm))))))
+        }
         ("c10.b.inv_odd_mod", [n, x, m]) => {
             let n = arg!(dec(n));
             let m = Odd::new(arg!(boxed(m, n))).unwrap();
